@@ -613,6 +613,53 @@ def r15_unmodelled(toks, log):
         i += 1
     return toks
 
+def r26_for_pairs(toks, log):
+    """R26: `for (A, B) in X.iter().zip(Y.iter()) {`  ->  `for vx_k in 0 .. (min of the two lengths) { let A = &X[vx_k]; let B = &Y[vx_k];`
+            `for (I, A) in X.iter().enumerate() {`   ->  `for I in 0 .. X.len() { let A = &X[I];`
+    (shared-reference iteration over slices, arrays and vectors: same elements, same order, same bindings)"""
+    toks = list(toks)
+    i = 0
+    n_k = 0
+    while i < len(toks):
+        t = toks[i]
+        if t.kind == "id" and t.text == "for" and i + 1 < len(toks) and P(toks[i + 1], "("):
+            pc = match_close(toks, i + 1)
+            pat = toks[i + 2:pc]
+            names = [u for u in pat if u.kind == "id"]
+            if len(names) != 2 or len(pat) != 3 or not (pc + 1 < len(toks) and toks[pc + 1].text == "in"):
+                i += 1; continue
+            # the iterated expression runs to the `{` at depth 0
+            j = pc + 2; d = 0
+            while not (d == 0 and P(toks[j], "{")):
+                if toks[j].kind == "punct" and toks[j].text in OPEN: d += 1
+                elif toks[j].kind == "punct" and toks[j].text in CLOSE: d -= 1
+                j += 1
+            ex = toks[pc + 2:j]
+            txt = [u.text for u in ex]
+            ln = t.line
+            A, B = names[0].text, names[1].text
+            tail_enum = [".", "iter", "(", ")", ".", "enumerate", "(", ")"]
+            if txt[-8:] == tail_enum and all(u.text not in ("{", "}") for u in ex[:-8]):
+                X = ex[:-8]
+                Xs = " ".join(u.text for u in X)
+                new = toks_of("for %s in 0 .. %s . len ( ) { let %s = & %s [ %s ] ;" % (A, Xs, B, Xs, A), ln)
+                toks[i:j + 1] = new
+                log.append(("R26", ln, "for (%s, %s) in %s.iter().enumerate() -> index loop" % (A, B, Xs)))
+                i += len(new); continue
+            if len(txt) > 10 and txt[-1] == ")" and "zip" in txt:
+                z = len(txt) - 1 - txt[::-1].index("zip")
+                if txt[z - 5:z] == [".", "iter", "(", ")", "."] and P(ex[z + 1], "(") and match_close(ex, z + 1) == len(ex) - 1 and txt[-5:-1] == [".", "iter", "(", ")"]:
+                    X = ex[:z - 5]; Y = ex[z + 2:len(ex) - 5]
+                    Xs = " ".join(u.text for u in X); Ys = " ".join(u.text for u in Y)
+                    k = "vx_k%d" % n_k; n_k += 1
+                    new = toks_of("for %s in 0 .. ( if %s . len ( ) < %s . len ( ) { %s . len ( ) } else { %s . len ( ) } ) { let %s = & %s [ %s ] ; let %s = & %s [ %s ] ;"
+                                  % (k, Xs, Ys, Xs, Ys, A, Xs, k, B, Ys, k), ln)
+                    toks[i:j + 1] = new
+                    log.append(("R26", ln, "for (%s, %s) in %s.iter().zip(%s.iter()) -> index loop" % (A, B, Xs, Ys)))
+                    i += len(new); continue
+        i += 1
+    return toks
+
 def r5_local_const(toks, log):
     """fn-local `const N: T = e;` -> `let N: T = e;` (applied to fn bodies only)"""
     toks = list(toks)
@@ -690,13 +737,24 @@ def const_lines(consts, world, log, stem="c"):
     lines = []
     ln0 = consts[0][3] if consts else 0
     lines.append(("pub mod cdefs_%s { use vstd::prelude::*;" % stem, ln0))
+    INT = ("usize", "isize", "u8", "u16", "u32", "u64", "i8", "i16", "i32", "i64")
     for (name, ty, expr, ln) in consts:
-        lines.append(("pub uninterp spec fn %s_s() -> %s;" % (name, "f64" if ty == "Float" else ty), ln))
+        if ty in ("Float", "f64"):
+            lines.append(("pub uninterp spec fn %s_s() -> %s;" % (name, "f64"), ln))
     lines.append(("}", ln0))
     lines.append(("pub use cdefs_%s::*;" % stem, ln0))
     for (name, ty, expr, ln) in consts:
         etext = " ".join(t for (t, _) in layout(expr)).strip() if expr else ""
         etext = " ".join(etext.split())
+        if ty in INT:
+            # integer constants are kept verbatim (Verus evaluates them)
+            lines.append(("pub const %s: %s = %s;" % (name, ty, etext), ln))
+            continue
+        if ty not in ("Float", "f64"):
+            # any other constant (arrays of floats): opaque value of the declared type
+            lines.append(("#[verifier::external_body] exec const %s: %s ensures true { %s }" % (name, ty, etext), ln))
+            log.append(("R4", ln, "const %s -> opaque exec const (no spec handle)" % name))
+            continue
         lines.append(("#[verifier::external_body] exec const %s: %s ensures %s == %s_s() { %s }" % (name, ty, name, name, etext), ln))
         log.append(("R4", ln, "const %s -> opaque exec const with spec handle %s_s()" % (name, name)))
     return lines
@@ -711,6 +769,7 @@ def apply_rewrites(toks, cfg, log):
     toks = r16_assert_eq(toks, log)
     if cfg.get("unmodelled"):
         toks = r15_unmodelled(toks, log)
+    toks = r26_for_pairs(toks, log)
     toks = r7_slice_copy(toks, log)
     if cfg.get("tolerance_vars"):
         toks = r9_index(toks, log, set(cfg["tolerance_vars"]), rule="R9")
